@@ -32,6 +32,7 @@ type Program struct {
 
 	numTypes map[*a.TypeExpr]*numType // cache, guarded by ntMu
 	ntMu     sync.Mutex
+	constMu  sync.Mutex
 
 	nFuncLines int
 }
@@ -48,23 +49,31 @@ type structInfo struct {
 type fieldInfo struct {
 	name t.ID
 	typ  *a.TypeExpr
+	priv bool // lives in private_data (second part of the struct)
 }
 
 type funcInfo struct {
-	node    *a.Func
-	recv    *structInfo
-	name    string
-	pub     bool
-	effect  a.Effect
-	args    []fieldInfo
-	argIdx  map[t.ID]int
-	locals  []fieldInfo
-	locIdx  map[t.ID]int
-	out     *a.TypeExpr
-	choosy  bool
-	coroID  int  // for pub coroutines: 1, 2, ...
-	derived bool // has an io-typed argument that needs "derived variables" in the C
-	retStat bool // returns a status (coroutine or Out is base.status)
+	node        *a.Func
+	recv        *structInfo
+	name        string
+	pub         bool
+	effect      a.Effect
+	args        []fieldInfo
+	argIdx      map[t.ID]int
+	locals      []fieldInfo
+	locIdx      map[t.ID]int
+	out         *a.TypeExpr
+	choosy      bool
+	coroID      int  // for pub coroutines: 1, 2, ...
+	derived     bool // has an io-typed argument that needs "derived variables" in the C
+	derivedArgs map[t.ID]bool
+	retStat     bool // returns a status (coroutine or Out is base.status)
+
+	// invalidC: wuffs-c emits `return wuffs_base__make_empty_struct();` for the
+	// failed argument check of a public non-coroutine, which does not compile
+	// when the function has a result and an argument that needs a check (a
+	// refined numeric type, an I/O type or a ptr).
+	invalidC bool
 }
 
 type constInfo struct {
@@ -151,7 +160,7 @@ func (p *Program) index() error {
 			for _, f := range s.Fields() {
 				f := f.AsField()
 				si.index[f.Name()] = len(si.fields)
-				si.fields = append(si.fields, fieldInfo{f.Name(), f.XType()})
+				si.fields = append(si.fields, fieldInfo{f.Name(), f.XType(), f.PrivateData()})
 			}
 			p.structs[s.QID()[1]] = si
 		}
@@ -180,7 +189,7 @@ func (p *Program) index() error {
 		for _, o := range f.In().Fields() {
 			o := o.AsField()
 			fi.argIdx[o.Name()] = len(fi.args)
-			fi.args = append(fi.args, fieldInfo{o.Name(), o.XType()})
+			fi.args = append(fi.args, fieldInfo{name: o.Name(), typ: o.XType()})
 		}
 		for _, o := range f.Body() {
 			if o.Kind() != a.KVar {
@@ -188,7 +197,7 @@ func (p *Program) index() error {
 			}
 			v := o.AsVar()
 			fi.locIdx[v.Name()] = len(fi.locals)
-			fi.locals = append(fi.locals, fieldInfo{v.Name(), v.XType()})
+			fi.locals = append(fi.locals, fieldInfo{name: v.Name(), typ: v.XType()})
 		}
 		if fi.pub && fi.effect.Coroutine() {
 			si.nPubCo++
@@ -197,6 +206,14 @@ func (p *Program) index() error {
 		for _, arg := range fi.args {
 			if arg.typ.IsIOType() && needDerivedVar(f, arg.name) {
 				fi.derived = true
+				if fi.derivedArgs == nil {
+					fi.derivedArgs = map[t.ID]bool{}
+				}
+				fi.derivedArgs[arg.name] = true
+			}
+			if fi.pub && !fi.effect.Coroutine() && fi.out != nil &&
+				(arg.typ.IsIOTokenType() || arg.typ.Decorator() == t.IDPtr || arg.typ.IsRefined()) {
+				fi.invalidC = true
 			}
 		}
 		si.funcs[f.FuncName()] = fi
